@@ -34,6 +34,10 @@ def run(tier, seed, replay=None):
     proved = proved_names(pr, info) if pr["ok"] else []
     base = json.load(open(os.path.join(vlib.ROOT, "baseline", "proved_obligations.json"))).get(PID, [])
     lost = sorted(set(base) - set(proved))
+    # an enumerator body the translator does not understand (e.g. a reference reported only under a condition): the
+    # "enumerated" set of the theorem would not describe it, so the type's obligation does not count as discharged
+    unread = info.get("enum_unparsed", {}) or {}
+    lost = sorted(set(lost) | set(unread))
     plain = vlib.build_oracle("plain")
     model = vlib.build_model_oracle()
     vers = be.QUICK_VERS if tier == "quick" else list(be.VERS)
@@ -44,7 +48,8 @@ def run(tier, seed, replay=None):
         scases = [r["case"]] if r.get("case", "").startswith("stale") else []
     else:
         # the types that dropped out of the proved set are explored more densely
-        cases = be.block_cases(info["blocks"], vers, seeds) + be.block_cases(lost, list(be.VERS), [seed + k for k in range(20)])
+        cases = be.block_cases(info["blocks"], vers, seeds) + be.block_cases(lost, list(be.VERS), [seed + k for k in range(20)]) \
+            + be.block_cases(lost, list(be.VERS), [seed + 100 + k for k in range(20)], maxc=12)
         scases = [c[0].replace("blk ", "stale ", 1) for c in be.block_cases(info["blocks"], vers, seeds[:1] if tier == "quick" else seeds)]
     res = be.par_run(plain, "blocks", [c[0] for c in cases], timeout=120)
     fails, stats = [], {"instances": 0, "with_refs": 0, "with_string_refs": 0, "stale_runs": 0, "stale_with_refs": 0, "model_log_compared": 0}
@@ -84,12 +89,13 @@ def run(tier, seed, replay=None):
         kv = be.kv_of(l)
         stats["stale_runs"] += 1
         stats["stale_with_refs"] += kv.get("nref") != "0"
-        if kv.get("del_ok") != "1" or kv.get("ord_ok") != "1":
+        if kv.get("del_ok") != "1" or kv.get("ord_ok") != "1" or kv.get("last_ok", "1") != "1":
             fails.append({"case": c, "what": "a stale block index is left in a serialised field after DeleteBlock/SetBlockOrder", "impl": l[:1500]})
     for f in fails[:10]:
         rep.violation("reference not enumerated: " + f["what"], dict(f, family="blocks"))
     if (not pr["ok"] or lost or hygiene) and not fails:
-        rep.violation("enumeration obligation no longer discharged for: %s" % (",".join(lost[:10]) or ",".join(pr["failed"]) or ",".join(hygiene)),
+        rep.violation("enumeration obligation no longer discharged for: %s%s" % (",".join(lost[:10]) or ",".join(pr["failed"]) or ",".join(hygiene),
+                                                                                (" (enumerator not understood: %s)" % json.dumps(unread)[:200]) if unread else ""),
                       {"broken": "obligation refs_enumerated (coq/Properties/Properties_C05.v, C05_proved_ids) for " + ",".join(lost),
                        "log": pr["log"][-1500:] if not pr["ok"] else ""}, found_input=False)
     if mism and not fails:
